@@ -410,6 +410,8 @@ class Ctx:
         self._scopes.append((len(self.pc), {r: len(v) for r, v in self.index_terms.items()}, self._dirty))
         self._inst_done_stack = getattr(self, "_inst_done_stack", [])
         self._inst_done_stack.append(frozenset(self._inst_done))
+        self._lits_stack = getattr(self, "_lits_stack", [])
+        self._lits_stack.append(getattr(self, "_lits_done", 0))
         self.solver.push()
 
     def pop_scope(self):
@@ -419,6 +421,7 @@ class Ctx:
             keep = lens.get(r, 0)
             del self.index_terms[r][keep:]
         self.solver.pop()
+        self._lits_done = self._lits_stack.pop()
         # instances recorded for dropped terms may have been dropped with the facts: forget the memo
         # entries made inside the scope so that they are redone when needed
         self._inst_done = set(self._inst_done_stack.pop()) if getattr(self, "_inst_done_stack", None) else self._inst_done
